@@ -96,6 +96,8 @@ def json_at(wj, key):
 # the depth surfaces (triangles, kd nodes, extrema, constness) are data the model takes from the implementation; what the
 # model assumes about them is checked here for every world of every check and reported by lib/check.py
 SURFACE_TIE = []
+PROCESS_TIE = []
+PROCESS_STATS = {"worlds": 0, "queries": 0}
 MERGE_STATS = {"surfaces": 0, "disagree": 0}
 
 
@@ -282,8 +284,45 @@ class CaseSet:
         self.meta.append(meta)
         return len(self.probe) - 1
 
+    def alone_in_a_fresh_process(self, impl, nworlds=5):
+        """a few worlds of the set are built and queried once more, each alone in a fresh process and with its queries in
+        reverse order: without random models the answers must be those of the crowded process, query by query (nothing that
+        another world or an earlier query left behind may matter).  Disagreements go to PROCESS_TIE (reported by lib/check.py)."""
+        picked = 0
+        for slot, wj, el in self.worlds:
+            if picked >= nworlds:
+                break
+            if slot % 2 == 0 or "random" in json.dumps(wj) or slot >= len(self.model_ok):
+                continue        # worlds that draw random numbers answer according to the sequence of queries
+            idx = [i for i, l in enumerate(self.probe) if l.split()[:2] in (["p3", str(slot)], ["p2", str(slot)])]
+            wl = [i for i, l in enumerate(self.probe) if l.split()[:2] == ["world", str(slot)]]
+            if len(idx) < 2 or len(wl) != 1 or not all(impl[i].startswith("ok") for i in idx) or not impl[wl[0]].startswith("ok"):
+                continue
+            picked += 1
+            wi = wl[0]
+            pre = []
+            if wi >= 1 and self.probe[wi - 1].startswith("copy "):
+                pre.append(self.probe[wi - 1])
+                if wi >= 2 and self.probe[wi - 2].startswith("culling 0"):
+                    pre.insert(0, "culling 0")
+            elif wi >= 1 and self.probe[wi - 1].startswith("culling 0"):
+                pre.append("culling 0")
+            lines = pre + [self.probe[wi]] + (["culling 1"] if "culling 0" in pre else []) + [self.probe[i] for i in reversed(idx)]
+            ans = common.run_probe(lines)[-len(idx):]
+            PROCESS_STATS["worlds"] += 1
+            PROCESS_STATS["queries"] += len(idx)
+            for i, a in zip(reversed(idx), ans):
+                if a != impl[i]:
+                    d = self.describe(i)
+                    d["alone_in_a_fresh_process"], d["among_the_other_worlds"] = a, impl[i]
+                    PROCESS_TIE.append(("a query answers differently when its world is alone in a fresh process (queries in reverse order) than among the "
+                                        "other worlds and queries of this run: %s vs %s" % (a[:60], impl[i][:60]), d))
+                    break
+
     def run(self, model=True):
         impl = common.run_probe(self.probe)
+        if os.environ.get("VERIF_NO_PROCESS_TIE") is None:
+            self.alone_in_a_fresh_process(impl)
         mod = common.run_model("\n".join(self.mlines), tag=os.path.basename(self.dir)) if model else None
         if self.merge_checks:
             # every node of the implementation's triangulation carries the value the merge rules give it (model, bit for bit)
